@@ -11,6 +11,9 @@ import (
 
 // BuildHistory saves one commit per node (parents first) and returns their sums. tables[i] is the
 // table sum used by nodes with Table == i.
+// seconds east of UTC: UTC, -03:30, +05:30, -09:30, +14:00, -00:30
+var historyZones = []int{0, -12600, 19800, -34200, 50400, -1800}
+
 func BuildHistory(db objects.Store, d gen.DAG, tables [][]byte) ([][]byte, error) {
 	sums := make([][]byte, len(d.Nodes))
 	for i, n := range d.Nodes {
@@ -25,7 +28,9 @@ func BuildHistory(db objects.Store, d gen.DAG, tables [][]byte) ([][]byte, error
 			tbl = make([]byte, 16)
 			tbl[0] = byte(n.Table + 1)
 		}
-		s, err := SaveCommit(db, tbl, parents, time.Unix(n.Time, 0), fmt.Sprintf("c%d", i))
+		// authors sit in various time zones (the instant is what the DAG says)
+		zone := time.FixedZone("", historyZones[i%len(historyZones)])
+		s, err := SaveCommit(db, tbl, parents, time.Unix(n.Time, 0).In(zone), fmt.Sprintf("c%d", i))
 		if err != nil {
 			return nil, err
 		}
